@@ -44,6 +44,14 @@ class Spec(object):
 
     # helpers (render/ops/build_case/sweep_case are attached below) --------------------
 
+    def fresh(self, hist):
+        """a fresh replay of a history given as indices or as ops"""
+        st = machine.State()
+        for op in self._as_ops(hist):
+            machine.apply(st, op, self.values)
+        st.hist = tuple(hist)
+        return st
+
     def _as_ops(self, hist):
         if hist and isinstance(hist[0], int):
             return [self.alphabet[i] for i in hist]
